@@ -342,6 +342,18 @@ impl Utf16LeStandIn {
         r is Ok ==> cow_chars(r->Ok_0) == dec16(buf@.subrange(4, 4 + 2 * le32(buf@))),
 //@@ end
 
+// (rule r4) the text of an error message: an arbitrary String
+#[verifier::external_body] fn verif_opaque_string() -> String { String::new() }
+// the length guard of the record readers: Err(Unrecognized) exactly when the record is shorter than what is about to be read
+//@@ fn src/xlsb/mod.rs check_len props=C06 ret=r r4
+//@@ sig
+    ensures
+        //# C06.check_len_err_iff_short
+        r is Err <==> len < min,
+        //# C06.check_len_err_shape
+        r is Err ==> r->Err_0 is Unrecognized,
+//@@ end
+
 //@@ item src/lib.rs enum SheetType
 //@@ item src/lib.rs enum SheetVisible
 //@@ item src/lib.rs struct Sheet
@@ -422,15 +434,16 @@ pub open spec fn rel_lookup(m: Map<Vec<u8>, String>, key: Seq<u8>) -> Option<Seq
         Some(m[choose|k: Vec<u8>| #[trigger] m.contains_key(k) && k@ == key]@)
     } else { None }
 }
-// TRUSTED: the body is the real expression `relationships[relid.as_bytes()]` moved into a function: vstd gives `Index` of BTreeMap no
-// specification (and `IndexSpecImpl` cannot be implemented for a foreign type).  std doc of `impl Index<&Q> for BTreeMap<K, V>`:
-// "Returns a reference to the value corresponding to the supplied key. Panics if the key is not present in the BTreeMap."
-// (keys compare by content: `Borrow<[u8]> for Vec<u8>`)
+// TRUSTED: the body is the real expression `relationships.get(relid.as_bytes())` moved into a function: vstd's specification of
+// BTreeMap::get demands `obeys_cmp::<K>()` / `borrowed_key_ordering_matches::<K, Q>()`, which it does not provide for Vec<u8> / [u8].
+// std doc of BTreeMap::get: "Returns a reference to the value corresponding to the key. The key may be any borrowed form of the map's
+// key type, but the ordering on the borrowed form must match the ordering on the key type." (keys compare by content: `Borrow<[u8]> for Vec<u8>`)
 #[verifier::external_body]
-fn verif_rel_index<'a>(m: &'a BTreeMap<Vec<u8>, String>, key: &[u8]) -> (r: &'a String)
-    requires rel_lookup(m@, key@) is Some,
-    ensures r@ == rel_lookup(m@, key@)->Some_0,
-{ &m[key] }
+fn verif_rel_get<'a>(m: &'a BTreeMap<Vec<u8>, String>, key: &[u8]) -> (r: Option<&'a String>)
+    ensures
+        r is Some <==> rel_lookup(m@, key@) is Some,
+        r is Some ==> r->Some_0@ == rel_lookup(m@, key@)->Some_0,
+{ m.get(key) }
 // TRUSTED: the body is the real expression `format!("xl/{}", target)` (Verus accepts `format!` but knows nothing of the result)
 #[verifier::external_body]
 fn verif_xl_path(target: &String) -> (r: String)
@@ -676,22 +689,22 @@ proof fn lemma_sheet_names(old_ss: Seq<(String, String)>, ms: Seq<Sheet>, ss: Se
     }
     assert(c =~= a + b);
 }
-/// the first cXti chunks of 12 bytes behind the count are the XTI entries of a well-formed BrtExternSheet payload, whatever stale
-/// bytes follow the payload in the buffer
+/// the cXti chunks of 12 bytes behind the count (`buf[4..4 + cxti * 12].chunks(12)`) are the XTI entries of a well-formed
+/// BrtExternSheet payload, whatever stale bytes follow the payload in the buffer
 proof fn lemma_xti_chunks(b: Seq<u8>, pl: Seq<u8>)
     requires xti_wf(pl), b.len() >= pl.len(), b.subrange(0, pl.len() as int) == pl,
     ensures
-        chunk_seq(b.subrange(4, b.len() as int), 12).len() >= le32(pl.subrange(0, 4)),
-        forall|k: int| 0 <= k < le32(pl.subrange(0, 4)) ==> (#[trigger] chunk_seq(b.subrange(4, b.len() as int), 12)[k]).len() == 12
-            && chunk_seq(b.subrange(4, b.len() as int), 12)[k].subrange(4, 8) == pl.subrange(4 + 12 * k + 4, 4 + 12 * k + 8),
+        chunk_seq(b.subrange(4, 4 + 12 * le32(pl.subrange(0, 4))), 12).len() == le32(pl.subrange(0, 4)),
+        forall|k: int| 0 <= k < le32(pl.subrange(0, 4)) ==> (#[trigger] chunk_seq(b.subrange(4, 4 + 12 * le32(pl.subrange(0, 4))), 12)[k]).len() == 12
+            && chunk_seq(b.subrange(4, 4 + 12 * le32(pl.subrange(0, 4))), 12)[k].subrange(4, 8) == pl.subrange(4 + 12 * k + 4, 4 + 12 * k + 8),
 {
     let n = le32(pl.subrange(0, 4));
-    let t = b.subrange(4, b.len() as int);
-    assert(t.len() >= 12 * n);
-    assert((t.len() + 12 - 1) / 12 >= n) by (nonlinear_arith) requires t.len() >= 12 * n, n >= 0;
+    let t = b.subrange(4, 4 + 12 * n);
+    assert(t.len() == 12 * n);
+    assert((t.len() + 12 - 1) / 12 == n) by (nonlinear_arith) requires t.len() == 12 * n, n >= 0;
     assert forall|k: int| 0 <= k < n implies (#[trigger] chunk_seq(t, 12)[k]).len() == 12
         && chunk_seq(t, 12)[k].subrange(4, 8) == pl.subrange(4 + 12 * k + 4, 4 + 12 * k + 8) by {
-        assert((k + 1) * 12 <= t.len()) by (nonlinear_arith) requires t.len() >= 12 * n, k < n;
+        assert((k + 1) * 12 <= t.len()) by (nonlinear_arith) requires t.len() == 12 * n, k < n;
         assert(k * 12 >= 0) by (nonlinear_arith) requires k >= 0;
         assert(chunk_seq(t, 12)[k] == t.subrange(k * 12, (k + 1) * 12));
         assert(t.subrange(k * 12, (k + 1) * 12).subrange(4, 8) =~= pl.subrange(4 + 12 * k + 4, 4 + 12 * k + 8)) by {
@@ -739,7 +752,7 @@ proof fn witness_wb1_1904(rels: Map<Vec<u8>, String>)
 /// instances of the preconditions declared in this unit
 proof fn witness_requires(k: Vec<u8>, v: String)
     ensures
-        // verif_rel_index
+        // a relationship table that defines the id
         rel_lookup(Map::<Vec<u8>, String>::empty().insert(k, v), k@) is Some,
         // wide_str: an empty string
         seq![0u8, 0u8, 0u8, 0u8].len() >= 4 && ws_ok(seq![0u8, 0u8, 0u8, 0u8], 0),
@@ -1211,7 +1224,7 @@ pub open spec fn strs(v: Seq<String>) -> Seq<Seq<char>> { v.map_values(|s: Strin
 //@@ before /match iter\.read_type\(\)\? \{/
             let ghost h = cur;
             proof { lemma_styles_step(h, st); lemma_rec_total(h); }
-//@@ after /let _len = iter\.fill_buffer\(&mut buf\)\?;/#0of2
+//@@ after /let size = iter\.fill_buffer\(&mut buf\)\?;/#0of2
                     let ghost pl = rec_payload(h);
                     proof { lemma_rec_read(h); assert(buf@ =~= pl); cur = rec_rest(h); }
 //@@ after /let len = read_usize\([^;]*;/#0of2
@@ -1232,7 +1245,7 @@ pub open spec fn strs(v: Seq<String>) -> Seq<Seq<char>> { v.map_values(|s: Strin
                             forall|k: u16| #[trigger] st.custom.contains_key(k) ==> fmt_id_ok(k as int),
                             bad || self.formats@ == f0 + st.xfs,
                             self.sheets@ == old(self).sheets@, self.strings@ == old(self).strings@, self.is_1904 == old(self).is_1904,
-//@@ before /let _ = iter\.next_skip_blocks\(/#0of2
+//@@ before /let size = iter\.next_skip_blocks\(/#0of2
                         let ghost g = cur;
                         let ghost f = first_of(g, 0x002C, Seq::<(u16, Option<u16>)>::empty());
                         proof {
@@ -1242,7 +1255,7 @@ pub open spec fn strs(v: Seq<String>) -> Seq<Seq<char>> { v.map_values(|s: Strin
                             if !bad { lemma_styles_seek(g, st, 0x002C); }
                             if f is Found { lemma_styles_step(f->at, st); lemma_first_of_at(g, 0x002C, Seq::<(u16, Option<u16>)>::empty()); }
                         }
-//@@ after /let _ = iter\.next_skip_blocks\([^;]*;/#0of2
+//@@ after /let size = iter\.next_skip_blocks\([^;]*;/#0of2
                         proof { cur = iter.rem(); }
 //@@ before /number_formats\s*\.insert\(/
                         proof {
@@ -1264,7 +1277,7 @@ pub open spec fn strs(v: Seq<String>) -> Seq<Seq<char>> { v.map_values(|s: Strin
                                     mode: if len - it.index@ == 1 { StMode::Top } else { StMode::Fmts { left: (len - it.index@ - 1) as nat } }, ..st };
                             }
                         }
-//@@ after /let _len = iter\.fill_buffer\(&mut buf\)\?;/#1of2
+//@@ after /let size = iter\.fill_buffer\(&mut buf\)\?;/#1of2
                     let ghost pl = rec_payload(h);
                     proof { lemma_rec_read(h); assert(buf@ =~= pl); cur = rec_rest(h); }
 //@@ after /let len = read_usize\([^;]*;/#1of2
@@ -1285,7 +1298,7 @@ pub open spec fn strs(v: Seq<String>) -> Seq<Seq<char>> { v.map_values(|s: Strin
                             forall|k: u16| #[trigger] st.custom.contains_key(k) ==> fmt_id_ok(k as int),
                             bad || self.formats@ == f0 + st.xfs,
                             self.sheets@ == old(self).sheets@, self.strings@ == old(self).strings@, self.is_1904 == old(self).is_1904,
-//@@ before /let _ = iter\.next_skip_blocks\(/#1of2
+//@@ before /let size = iter\.next_skip_blocks\(/#1of2
                         let ghost g = cur;
                         let ghost f = first_of(g, 0x002F, Seq::<(u16, Option<u16>)>::empty());
                         let ghost fv = self.formats@;
@@ -1296,7 +1309,7 @@ pub open spec fn strs(v: Seq<String>) -> Seq<Seq<char>> { v.map_values(|s: Strin
                             if !bad { lemma_styles_seek(g, st, 0x002F); }
                             if f is Found { lemma_styles_step(f->at, st); lemma_first_of_at(g, 0x002F, Seq::<(u16, Option<u16>)>::empty()); }
                         }
-//@@ after /let _ = iter\.next_skip_blocks\([^;]*;/#1of2
+//@@ after /let size = iter\.next_skip_blocks\([^;]*;/#1of2
                         proof { cur = iter.rem(); }
 //@@ after /let fmt_code = read_u16\([^;]*;/#1of2
                         proof {
@@ -1347,6 +1360,7 @@ pub open spec fn strs(v: Seq<String>) -> Seq<Seq<char>> { v.map_values(|s: Strin
             // the literal `&[]` of the call below
             let bl: [(u16, Option<u16>); 0] = [];
             assert(bl@ =~= Seq::<(u16, Option<u16>)>::empty());
+            lemma_first_of_unblocked(s0, 0x009F);
         }
 //@@ after /let len = read_usize\([^;]*;/
         let ghost t0 = first_of(s0, 0x009F, Seq::<(u16, Option<u16>)>::empty());
@@ -1364,6 +1378,9 @@ pub open spec fn strs(v: Seq<String>) -> Seq<Seq<char>> { v.map_values(|s: Strin
         }
 //@@ loop 0 it
             invariant
+                // the buffer still holds at least the 8 bytes of BrtBeginSst (it never shrinks)
+                //# C06.sst_buffer_monotone
+                buf@.len() >= 8,
                 //# C19.sst_items_in_step
                 part_bytes(old(self).zip, sst_path()) is Some,
                 s0 == part_bytes(old(self).zip, sst_path())->Some_0, str0 == old(self).strings@,
@@ -1373,7 +1390,7 @@ pub open spec fn strs(v: Seq<String>) -> Seq<Seq<char>> { v.map_values(|s: Strin
                 good && !(tot is Malformed) && !(tot is Blocked) ==> strs(self.strings@) == strs(str0) + items,
                 it.index@ <= len,
                 self.sheets@ == old(self).sheets@, self.formats@ == old(self).formats@, self.is_1904 == old(self).is_1904,
-//@@ before /let _ = iter\.next_skip_blocks\(/#1of2
+//@@ before /let size = iter\.next_skip_blocks\(/#1of2
             let ghost h = iter.rem();
             let ghost sv = self.strings@;
             let ghost f = first_of(h, 0x0013, sst_bounds());
@@ -1496,13 +1513,13 @@ impl Xlsb<VerifRs> {
 //@@ before /match iter\.read_type\(\)\? \{/
             let ghost h = cur;
             proof { lemma_wb1_step(h, st, rels); lemma_rec_total(h); }
-//@@ after /let _ = iter\.fill_buffer\(&mut buf\)\?;/#0of4
+//@@ after /let len = iter\.fill_buffer\(&mut buf\)\?;/#0of4
                     proof {
                         lemma_rec_read(h);
                         assert(buf@ =~= rec_payload(h));
                         cur = rec_rest(h);
                     }
-//@@ after /let _ = iter\.fill_buffer\(&mut buf\)\?;/#1of4
+//@@ after /let _ = iter\.fill_buffer\(&mut buf\)\?;/#0of3
                     proof {
                         // BrtEndBundleShs is a record like any other: its size field (and payload) belong to it
                         lemma_rec_read(h);
@@ -1510,10 +1527,10 @@ impl Xlsb<VerifRs> {
                     }
                     //# C03,C16.end_bundle_record_skipped_whole
                     assert(rec_ok(h) && iter.rem() == rec_rest(h));
-//@@ after /let _ = iter\.fill_buffer\(&mut buf\)\?;/#2of4
+//@@ after /let _ = iter\.fill_buffer\(&mut buf\)\?;/#1of3
                     // a record kind the reader does not interpret is passed over whole
                     proof { lemma_rec_read(h); cur = rec_rest(h); }
-//@@ after /let _ = iter\.fill_buffer\(&mut buf\)\?;/#3of4
+//@@ after /let _ = iter\.fill_buffer\(&mut buf\)\?;/#2of3
                     // a record kind the reader does not interpret is passed over whole
                     proof { lemma_rec_read(h); cur = rec_rest(h); }
 //@@ after /self\.is_1904 = [^;]*;/
@@ -1524,7 +1541,7 @@ impl Xlsb<VerifRs> {
                         assert(self.is_1904 == (rec_payload(h)[0] % 2 == 1));
                         st = WbSt { is_1904: rec_payload(h)[0] % 2 == 1, ..st };
                     }
-//@@ after /let len = iter\.fill_buffer\(&mut buf\)\?;/#0of2
+//@@ after /let len = iter\.fill_buffer\(&mut buf\)\?;/#1of4
                     let ghost pl = rec_payload(h);
                     proof {
                         lemma_rec_read(h);
@@ -1533,6 +1550,7 @@ impl Xlsb<VerifRs> {
                     }
 //@@ after /let rel_len = read_u32\([^;]*;/
                     let ghost rl32 = rel_len as int;
+                    proof { lemma_le32_sub(pl, 8, pl.len() as int); }
 //@@ after /let relid = &buf\[[^;]*;/
                         let ghost relid_bytes = relid@;
 //@@ before /let path = /
@@ -1627,11 +1645,11 @@ impl Xlsb<VerifRs> {
 //@@ before /let typ = iter\.read_type\(\)\?;/
             let ghost h = cur;
             proof { lemma_wb2_step(h, st2, shn); lemma_rec_total(h); }
-//@@ after /let _len = iter\.fill_buffer\(&mut buf\)\?;/
+//@@ after /let len = iter\.fill_buffer\(&mut buf\)\?;/#2of4
                     let ghost pl = rec_payload(h);
                     proof {
                         lemma_rec_read(h);
-                        assert(buf@.subrange(0, _len as int) =~= pl);
+                        assert(buf@.subrange(0, len as int) =~= pl);
                         cur = rec_rest(h);
                     }
 //@@ before /self\.extern_sheets\.reserve\(cxti\);/
@@ -1640,7 +1658,8 @@ impl Xlsb<VerifRs> {
                         assert(cxti < 1_000_000);
 //@@ closure 0
     -> (res: String)
-        ensures xti@.len() >= 8 ==> res@ == xti_name(signed32(le32(xti@.subrange(4, 8))), names_of(sheets@))
+        requires xti@.len() >= 8
+        ensures res@ == xti_name(signed32(le32(xti@.subrange(4, 8))), names_of(sheets@))
 //@@ before /let sheets = &self\.sheets;/
                     proof {
                         if xti_wf(pl) {
@@ -1654,7 +1673,7 @@ impl Xlsb<VerifRs> {
                             assert(self.extern_sheets@.len() == cxti);
                             let got = strs(self.extern_sheets@); let want = xti_names(pl, shn);
                             assert forall|k: int| 0 <= k < want.len() implies #[trigger] got[k] == want[k] by {
-                                assert(chunk_seq(buf@.subrange(4, buf@.len() as int), 12)[k].len() == 12);
+                                assert(chunk_seq(buf@.subrange(4, 4 + 12 * cxti as int), 12)[k].len() == 12);
                                 assert(got[k] == self.extern_sheets@[k]@);
                             }
                             // entry k of the extern-sheet table is the name of sheet firstSheet of the k-th XTI
@@ -1663,7 +1682,7 @@ impl Xlsb<VerifRs> {
                             st2 = Wb2St { ext: xti_names(pl, shn), ..st2 };
                         }
                     }
-//@@ after /let len = iter\.fill_buffer\(&mut buf\)\?;/#1of2
+//@@ after /let len = iter\.fill_buffer\(&mut buf\)\?;/#3of4
                     let ghost pl = rec_payload(h);
                     proof {
                         lemma_rec_read(h);
@@ -1691,8 +1710,8 @@ impl Xlsb<VerifRs> {
 verif_split_nth(&path, '/', 1)
 //@@ replace /format!\("xl.\{\}", / Verus knows nothing of the String `format!` builds: the expression is moved into a trusted wrapper whose body is the same expression
 verif_xl_path(&
-//@@ replace /relationships\[([^\]]*)\]/ vstd has no specification for `Index` of BTreeMap: the expression is moved into a trusted wrapper whose body is the same expression
-verif_rel_index(relationships, \g<1>)
+//@@ replace /relationships\.get\(([^()]*\(\))\)/ vstd's specification of BTreeMap::get needs key-ordering facts it does not provide for Vec<u8> and [u8]: the expression is moved into a trusted wrapper whose body is the same expression
+verif_rel_get(relationships, \g<1>)
 //@@ replace /&buf\[0\] &/ Verus has no `BitAnd<u8> for &u8` (std: `&a & b` is `*a & b`); same index, same operand
 buf[0] &
 //@@ end
